@@ -16,6 +16,7 @@ import numpy as np
 sys.path.insert(0, os.path.dirname(os.path.dirname(os.path.abspath(__file__))))
 from translate import startvalues, kernels, c09_kernels  # noqa: E402
 from harness import gen, drive  # noqa: E402
+from harness import c01_help  # noqa: E402  (augment: pressure controllers, several ext grids per junction)
 
 CLAIM = {
     "text": "Unbounded graph theorem over the reals: for any network graph (meshes, parallel branches, several "
@@ -36,6 +37,7 @@ CLAIM = {
 GEN = [("StartValueUses", startvalues.generate)] + kernels.gen_entries(["KHydIncompNp", "KHydIncompNb", "KHydCompNp", "KHydCompNb"]) + \
     [("KCalcLambda", c09_kernels.generate)]
 
+CRASHES = ("IndexError", "KeyError", "ValueError", "TypeError", "AttributeError", "ZeroDivisionError")
 TIGHT = dict(tol_p=1e-9, tol_m=1e-9, tol_res=1e-6, iter=200)
 
 
@@ -177,6 +179,14 @@ def refine_where(where, variant_spec, diffs, ambient=293.15):
         except (ValueError, IndexError):
             return where
     temp_cols = ("t_k", "t_from_k", "t_to_k", "t_outlet_k")
+    # a compressor / pump lifts only for forward flow (bypass for reverse flow): in a mesh the network can have two
+    # exact solutions, one with the element lifting and one with it bypassed - outside the uniqueness theorem
+    # (its law is not monotone); recognised by the element's flow changing sign between the two runs
+    for tbl, c, a, b in vals:
+        if tbl in ("res_compressor", "res_pump") and c == "mdot_from_kg_per_s" and a * b < 0:
+            return "lift_element_direction"
+    if where == "stagnant_loop":
+        return where          # loop temperatures are mixtures of start values, a single start value included
     if any(c in temp_cols and any(abs(b - s0) <= 1e-9 * abs(s0) and abs(s0 - ambient) > 1e-6 for s0 in starts)
            for _, c, a, b in vals):
         return "start_value_leak"
@@ -229,7 +239,7 @@ def run(ctx):
     rng = ctx.rng
     # fixed mix: ordinary generated nets + the low-flow meshes in which automatic damping rejects steps
     mult = 1 if ctx.quick else 14
-    plan = (["water"] * 5 + ["water_thermal"] * 4 + ["gas"] * 4 + ["gas_hilly"] * 7 + ["heat"] * 5 + ["lowflow"] * 6 +
+    plan = (["water"] * 5 + ["water_thermal"] * 4 + ["gas"] * 4 + ["gas_hilly"] * 7 + ["heat"] * 4 + ["heat_qe_tr"] * 6 + ["lowflow"] * 6 +
             ["lowflow_default_tol"] * 14 + ["lowflow_thermal"] * 5) * mult
     n_nets = len(plan)
     nconv = 0
@@ -238,6 +248,11 @@ def run(ctx):
         profile = plan[k]
         if profile.startswith("lowflow"):
             spec = lowflow_mesh(rng)
+        elif profile == "heat_qe_tr":
+            # heat + return-temperature consumers: their mass flow is an unknown coupled to the temperatures, and the
+            # hook ignores them while their inlet is colder than the return set-point - start temperatures on both
+            # sides of the set-point must lead to the same converged state
+            spec = gen.gen_net(rng, "heat", size=rng.randint(1, 3), features={"hc_mode": "QE_TR", "mass_pump": False})
         elif profile == "gas_hilly":
             # large height differences: the hydrostatic term rho(p)*g*dh makes gas results sensitive to any
             # quantity frozen at the start pressures
@@ -252,13 +267,20 @@ def run(ctx):
                     kw["pn_bar"] = 16.0
         else:
             spec = gen.gen_net(rng, "water" if profile == "water_thermal" else profile)
+            if profile in ("water", "gas") and k % 2 == 0:
+                # pressure controllers (set-point != pn_bar) and several ext grids per junction
+                try:
+                    aug = c01_help.augment(rng, spec, profile, force=["pc"])
+                    spec = aug[0] if isinstance(aug, tuple) else aug
+                except Exception:
+                    pass
         d = gen.describe(spec)
         rich = d["counts"].get("pipe", 0) >= d["junctions"] or any(
             c in d["counts"] for c in ("pump", "compressor", "flow_control", "pressure_control", "valve")) \
             or d["counts"].get("ext_grid", 0) > 1
-        if profile in ("heat", "water_thermal", "lowflow_thermal"):
+        if profile in ("heat", "water_thermal", "lowflow_thermal", "heat_qe_tr"):
             base_kw = dict(mode="bidirectional", tol_T=1e-7, use_numba=False, **TIGHT)
-            col, lo, hi, atol = "tfluid_k", 0.9, 1.1, 1e-5
+            col, lo, hi, atol = "tfluid_k", (0.82 if profile == "heat_qe_tr" else 0.9), 1.1, 1e-5
         elif profile == "lowflow_default_tol":
             # solver defaults (tol 1e-5): two accepted runs may differ by a small multiple of the tolerance
             base_kw = dict(mode="hydraulics", use_numba=False, iter=100)
@@ -272,6 +294,10 @@ def run(ctx):
         zrv = {kw["index"] for fn, kw in spec["ops"] if fn == "create_valve" and not kw.get("loss_coefficient", 0)}
         st0, r0 = run_variant(spec, **base_kw)
         ctx.count("base_" + profile + "_" + st0)
+        if st0 in CRASHES:
+            ctx.violation({"clause": "unexpected_exception", "exception": st0, "profile": profile},
+                          "pipeflow on a well-posed generated network raises %s instead of returning or raising "
+                          "PipeflowNotConverged" % st0, {"spec": spec, "options": base_kw})
         if st0 != "ok":
             continue
         variants = [("start_%d" % i, perturb_spec(spec, rng, col, lo, hi), base_kw) for i in range(3)]
